@@ -1,5 +1,6 @@
 import Driver.Util
 import Driver.Ctl
+import Driver.Codec
 open Lean Driver
 
 def handle (line : String) : Verdict :=
@@ -9,6 +10,7 @@ def handle (line : String) : Verdict :=
     let mode := (fieldD j "mode").getStr?.toOption.getD ""
     let r : R Verdict :=
       if mode == "ctl" then CtlReplay.replay j
+      else if mode == "codec" then CodecReplay.replay j
       else .error ("unknown mode " ++ mode)
     match r with
     | .ok v => v
